@@ -29,6 +29,25 @@ fn distinct_queries<T: Flt>(rng: &mut Rng, lo: T, hi: T, n: usize) -> Vec<T> {
     v
 }
 
+/// the same, with about a third of the values replaced by (pairwise distinct) knots
+fn distinct_queries_with_knots<T: Flt>(rng: &mut Rng, x: &[T], n: usize) -> Vec<T> {
+    let mut v = distinct_queries(rng, x[0], x[x.len() - 1], n);
+    let mut knots: Vec<T> = x.to_vec();
+    rng.shuffle(&mut knots);
+    let mut pos: Vec<usize> = (0..n).collect();
+    rng.shuffle(&mut pos);
+    for (&p, &k) in pos.iter().take((n + 2) / 3).zip(knots.iter()) {
+        if !v.iter().any(|a| a.bits() == k.bits()) {
+            v[p] = k;
+        }
+    }
+    v
+}
+
+fn slices_same<T: Flt>(a: &[T], b: &[T]) -> bool {
+    a.len() == b.len() && a.iter().zip(b).all(|(x, y)| vh::flt::same_bits(*x, *y))
+}
+
 /// query shapes: asymmetric, with pairwise distinct extents, zero-length axes, rank 0
 fn query_shape(rng: &mut Rng, kind: QKind) -> Vec<usize> {
     let rank = kind.static_rank().unwrap_or_else(|| rng.below(4));
@@ -115,7 +134,7 @@ fn check1<T: Elem>(c: &mut Ctx, interp: &dyn DynInterp1<T>, spec: &Spec1<T>, qa:
         }
         let one_flat: Vec<T> = one.iter().copied().collect();
         c.ev.add("elements_compared", lanes as u64);
-        if bits_of(&one_flat) != bits_of(&flat[k * lanes..(k + 1) * lanes]) {
+        if !slices_same(&one_flat, &flat[k * lanes..(k + 1) * lanes]) {
             c.bad(
                 "C09:array-vs-single",
                 format!("interp_array({name}) at flat query index {k} (q={q:?}) = {:?} but interp(q) = {:?}", &flat[k * lanes..(k + 1) * lanes], one_flat),
@@ -124,7 +143,7 @@ fn check1<T: Elem>(c: &mut Ctx, interp: &dyn DynInterp1<T>, spec: &Spec1<T>, qa:
         }
         if let Outcome::Ok(s) = interp.scalar(q) {
             c.ev.add("scalar_compared", 1);
-            if s.bits() != one_flat[0].bits() {
+            if !vh::flt::same_bits(s, one_flat[0]) {
                 c.bad("C09:scalar-vs-single", format!("interp_scalar({q:?}) = {s:?} but interp = {:?}", one_flat[0]));
                 return;
             }
@@ -203,7 +222,7 @@ fn check2<T: Elem>(c: &mut Ctx, interp: &dyn DynInterp2<T>, spec: &Spec2<T>, qx:
         };
         let one_flat: Vec<T> = one.iter().copied().collect();
         c.ev.add("elements_compared", lanes as u64);
-        if one.shape() != lane_shape.as_slice() || bits_of(&one_flat) != bits_of(&flat[k * lanes..(k + 1) * lanes]) {
+        if one.shape() != lane_shape.as_slice() || !slices_same(&one_flat, &flat[k * lanes..(k + 1) * lanes]) {
             c.bad(
                 "C09:array-vs-single",
                 format!("2-D interp_array({name}) at flat query index {k} = {:?} but interp = {:?}", &flat[k * lanes..(k + 1) * lanes], one_flat),
@@ -212,7 +231,7 @@ fn check2<T: Elem>(c: &mut Ctx, interp: &dyn DynInterp2<T>, spec: &Spec2<T>, qx:
         }
         if let Outcome::Ok(s) = interp.scalar(xv[k], yv[k]) {
             c.ev.add("scalar_compared", 1);
-            if s.bits() != one_flat[0].bits() {
+            if !vh::flt::same_bits(s, one_flat[0]) {
                 c.bad("C09:scalar-vs-single", format!("2-D interp_scalar = {s:?} but interp = {:?}", one_flat[0]));
                 return;
             }
@@ -333,6 +352,12 @@ fn case_builtin1<T: Elem>(case: u64, args: &Args, ev: &mut Ev) {
     if spec.data.ndim() > 6 {
         spec.dynamic = true;
     }
+    // the agreement between entry points is bitwise, so the data may contain anything:
+    // -0.0, infinities, NaN, +-MAX (Linear only; one such sample makes a whole spline NaN)
+    if !spline && !spec.broadcast_lanes && case % 5 == 2 {
+        let k = sprinkle_specials(&mut rng, &mut spec.data);
+        ev.add("special_data_samples", k as u64);
+    }
     let x = spec.axis();
     let h = hash_bits(&[&bits_of(&x), &bits_of_arr(&spec.data)], &[T::NAME, &spec.dim_name(), &spec.strat.name()]);
     ev.case(h, true);
@@ -354,7 +379,7 @@ fn case_builtin1<T: Elem>(case: u64, args: &Args, ev: &mut Ev) {
         for kind in kinds() {
             let shape = query_shape(&mut rng, kind);
             let n: usize = shape.iter().product();
-            let vals = distinct_queries(&mut rng, x[0], x[x.len() - 1], n);
+            let vals = distinct_queries_with_knots(&mut rng, &x, n);
             // the query array itself comes in every memory layout (C, F, permuted, strided, reversed)
             let lay = vh::lay::Layout::random(&mut rng, shape.len());
             c.ev.count("query_layout", lay.class());
@@ -389,7 +414,7 @@ fn case_builtin1<T: Elem>(case: u64, args: &Args, ev: &mut Ev) {
                             };
                             let of: Vec<T> = one.iter().copied().collect();
                             c.ev.add("elements_compared", lanes as u64);
-                            if bits_of(&of) != bits_of(&flat[k * lanes..(k + 1) * lanes]) {
+                            if !slices_same(&of, &flat[k * lanes..(k + 1) * lanes]) {
                                 c.bad("C09:array-vs-single", format!("large batch {:?} ({} queries): element {k} differs from interp(q[{k}])", shape, n));
                                 break;
                             }
@@ -408,6 +433,10 @@ fn case_builtin2<T: Elem>(case: u64, args: &Args, ev: &mut Ev) {
     let (mut spec, _) = gen_grid_case::<T>(&mut rng, &GridOpts { max_nx: 6, max_ny: 5, max_lane_rank: 4, allow_zero_lanes: true, allow_cluster: false, ..Default::default() });
     if spec.data.ndim() > 6 {
         spec.dynamic = true;
+    }
+    if !spec.broadcast_lanes && case % 5 == 2 {
+        let k = sprinkle_specials(&mut rng, &mut spec.data);
+        ev.add("special_data_samples", k as u64);
     }
     let x = spec.axis_x();
     let y = spec.axis_y();
@@ -431,8 +460,8 @@ fn case_builtin2<T: Elem>(case: u64, args: &Args, ev: &mut Ev) {
         for kind in kinds() {
             let shape = query_shape(&mut rng, kind);
             let n: usize = shape.iter().product();
-            let vx = distinct_queries(&mut rng, x[0], x[x.len() - 1], n);
-            let vy = distinct_queries(&mut rng, y[0], y[y.len() - 1], n);
+            let vx = distinct_queries_with_knots(&mut rng, &x, n);
+            let vy = distinct_queries_with_knots(&mut rng, &y, n);
             let lx = vh::lay::Layout::random(&mut rng, shape.len());
             let ly = vh::lay::Layout::random(&mut rng, shape.len());
             c.ev.count("query_layout", lx.class());
@@ -493,7 +522,7 @@ fn case_rec<T: Elem>(case: u64, args: &Args, ev: &mut Ev) {
                         for (k, &q) in vals.iter().enumerate() {
                             for l in 0..lanes {
                                 let want = code1(q, l);
-                                if flat[k * lanes + l].bits() != want.bits() {
+                                if !vh::flt::same_bits(flat[k * lanes + l], want) {
                                     ev.violation(
                                         "C09:placement",
                                         &format!(
@@ -553,7 +582,7 @@ fn case_rec<T: Elem>(case: u64, args: &Args, ev: &mut Ev) {
                         for k in 0..nq {
                             for l in 0..lanes {
                                 let want = code2(vx[k], vy[k], l);
-                                if flat[k * lanes + l].bits() != want.bits() {
+                                if !vh::flt::same_bits(flat[k * lanes + l], want) {
                                     ev.violation(
                                         "C09:placement",
                                         &format!("2-D interp_array({}) lanes {:?}: element (query {k}, lane {l}) holds {:?}, expected {:?}", qx.name(), lane_shape, flat[k * lanes + l], want),
